@@ -127,7 +127,37 @@ def chk_user(inp):
     return None
 
 
-CHECKS = {'partition': chk_partition, 'laws': chk_laws, 'sizes': chk_sizes, 'user': chk_user}
+def chk_user_history(inp):
+    """several reductions on ONE object (different user alphabets with the same keys, predefined sizes, an invalid alphabet): each
+    answer is that of the alphabet given in that call"""
+    seq, seed = inp
+    rng = random.Random(seed)
+    o = sp(seq)
+    for step in range(5):
+        x = rng.random()
+        if x < 0.55:
+            reps = rng.sample(AA20, rng.randint(1, 4))
+            ua = {a: rng.choice(reps) for a in AA20}
+            r = outcome(o.get_reduced_alphabet_sequence, 20, dict(ua))
+            exp = ''.join(ua[c] for c in seq)
+            if r[0] != 'ok' or r[1][0] != exp:
+                return 'call %d on one object: user alphabet %s on %s -> %r, expected %s' % (step + 1, ua, seq, r, exp)
+        elif x < 0.8:
+            size = rng.choice([2, 5, 8, 11, 20])
+            r = outcome(o.get_reduced_alphabet_sequence, size)
+            f = outcome(sp(seq).get_reduced_alphabet_sequence, size)
+            if r != f:
+                return 'call %d on one object: size %d on %s -> %r, a fresh object gives %r' % (step + 1, size, seq, r, f)
+        else:
+            bad = {a: rng.choice(AA20) for a in AA20}
+            bad[rng.choice(AA20)] = rng.choice(['x', 'B', '', 'ST'])
+            r = outcome(o.get_reduced_alphabet_sequence, 20, bad)
+            if r[0] != 'exc':
+                return 'call %d on one object: invalid user alphabet %s accepted -> %r' % (step + 1, bad, r)
+    return None
+
+
+CHECKS = {'partition': chk_partition, 'laws': chk_laws, 'sizes': chk_sizes, 'user': chk_user, 'user_history': chk_user_history}
 
 
 def work(seed, count, first):
@@ -142,6 +172,7 @@ def work(seed, count, first):
         inps.append((a, b, rng.choice(SIZES)))
     run_checks(r, 'laws', chk_laws, inps)
     run_checks(r, 'user', chk_user, [(random_sequence(rng)[:30], rng.randint(0, 10 ** 6)) for _ in range(count // 2)])
+    run_checks(r, 'user_history', chk_user_history, [(random_sequence(rng)[:30], rng.randint(0, 10 ** 6)) for _ in range(count // 2)])
     if first:
         run_checks(r, 'partition', chk_partition, SIZES)
     return r
